@@ -1,6 +1,8 @@
 //! Conformance harness: drives the real code built from /repo's working tree (hooks on) from
 //! TLC-generated behaviours, and records real executions for trace validation.
+mod policy;
 mod pool;
+mod publish;
 
 use anyhow::{anyhow, Result};
 
@@ -14,6 +16,11 @@ fn main() -> Result<()> {
     match cmd {
         "pool-replay" => pool::replay(&args[2], &args[3]),
         "pool-record" => pool::record(&args[2], seed(), args[3].parse()?, args[4].parse()?, args[5].parse()?),
+        "policy-baseline" => policy::baseline(),
+        "policy-replay" => policy::replay(&args[2], &args[3]),
+        "policy-ctors" => policy::ctors(&args[2], &args[3]),
+        "publish-replay" => publish::replay(&args[2], &args[3], &args[4]),
+        "publish-child" => publish::child(&args[2]),
         _ => Err(anyhow!("unknown subcommand {cmd}")),
     }
 }
